@@ -373,6 +373,20 @@ def step (d : Dir) : Op → Dir × Out
   | .ept gs => (d, .groups (gs.map d.lookupGroup))
   | .snap => (d, .snapshot d.snapshot)
 
+/-- the authority target an operation is fenced by (group lookups carry one per group) -/
+def Op.target : Op → Option Target
+  | .reg t _ | .commit t _ | .abort t _ | .unreg t _ _ | .touch t _ | .ep t _ | .eps t _ => some t
+  | _ => none
+
+/-- does `op` leave the authority incarnation of hash slot `hs` in place?  (`LoseAuthority`
+    and a `BecomeAuthority` with a different identity start a new, empty incarnation.) -/
+def keepsSlot (d : Dir) (hs : Nat) : Op → Bool
+  | .lose h => h != hs
+  | .become t => t.hs != hs || (match aget hs d.slots with
+      | some s => sameAuth s.target t
+      | none => false)
+  | _ => true
+
 def run (d : Dir) (ops : List Op) : Dir := ops.foldl (fun d op => (step d op).1) d
 
 end WK.C33
